@@ -204,3 +204,18 @@ Proof.
 Qed.
 Example ex_json_roundtrip : jdec 4 (jenc ex_json_value) = Some (canonj ex_json_value, []).
 Proof. vm_compute. reflexivity. Qed.
+
+(* ---- C07 DAG-JSON, token level: the example delegation's envelope meets the premises of
+   C07_delegation_seal_json_unseal ([jsafe] through its decidable sufficient condition), and the JSON text reads back ---- *)
+Require Import JsonSealProofs.
+Example ex_json_token_premises :
+  let N := env_seal (fun m => [7; 7]) [1; 2] dlg_tag (dlg_to_payload ex_dtok) in
+  jsafe N /\ keys_distinct N /\ (jdepth N <= 9)%nat.
+Proof.
+  cbv zeta. split; [apply jsafeb_sound; vm_compute; reflexivity|]. split; [|vm_compute; lia].
+  vm_compute. repeat split; try reflexivity; try discriminate; repeat constructor; cbn; intuition discriminate.
+Qed.
+Example ex_json_token_reads_back :
+  match from_json ex_verify ex_header dtok dlg_from_payload dlg_tag 9 (to_json ex_sign [1; 2] dlg_tag (dlg_to_payload ex_dtok)) with
+  | Ok t' => True | _ => False end.
+Proof. vm_compute. exact I. Qed.
